@@ -442,6 +442,22 @@ func classifyErr(e *Engine, v ssa.Value) byte {
 	return '?'
 }
 
+// classifyErrAt also uses what the path knows about the value (an error returned by an
+// inlined helper whose returning arm was non-nil, a value tested against nil).
+func classifyErrAt(e *Engine, st *State, fc *FrameCtx, v ssa.Value) byte {
+	if c := classifyErr(e, v); c != '?' {
+		return c
+	}
+	cv := e.CanonS(fc, v)
+	if isNil, known := st.pi["("+minStr("nil", cv)+"=="+maxStr("nil", cv)+")"]; known {
+		if isNil {
+			return 'n'
+		}
+		return 'e'
+	}
+	return '?'
+}
+
 func (r *unsubRule) OnExit(e *Engine, st *State, kind ExitKind) {
 	if kind != ExitReturn {
 		return
